@@ -38,7 +38,7 @@ func c01Record(rng *rand.Rand, uid *int) string {
 		case 9, 10: // an explicit null id is a notification too - any number of them, in one batch or in a row
 			return fmt.Sprintf(`{"jsonrpc":"2.0","id":null,"method":"m","params":["n%d","ok"]}`, u)
 		}
-		return reqCall(u, fmt.Sprintf("c%d", u), []string{"ok", "err", "errcode:7"}[rng.Intn(3)])
+		return reqCall(u, fmt.Sprintf("c%d", u), []string{"ok", "err", "errcode:7", "ok", "err", "errcode:7", "rawnl", "rawbad", "errdata"}[rng.Intn(9)])
 	}
 	// blank padding around the record (framings such as Header / Direct pass it on verbatim)
 	pad := func(rec string) string {
